@@ -14,6 +14,7 @@ from ..cfg import CFG
 from ..core import AnalysisError, Repo, Report, call_name, calls_in, kwarg, module_const, norm, parents_map, walk_local
 from ..dataflow import DefUse
 from ..sites import guard_chain
+from .util import attr_stores, canon, cguards
 
 
 def _sigref_literals(f) -> list[tuple[str, ast.Call]]:
@@ -32,44 +33,46 @@ def run(repo: Repo, rep: Report, tier: str) -> None:
              "signal-everything, in the lowerer and in the inlined entity condition alike; an each-output arithmetic without an each input is never emitted")
     ba = b.methods["bundle_arithmetic"]
     c = calls_in(ba.node, "IRArith")
-    st = {norm(n.targets[0]).split(".")[-1]: norm(n.value) for n in walk_local(ba.node) if isinstance(n, ast.Assign) and isinstance(n.targets[0], ast.Attribute)}
+    st = {k: v[-1] for k, v in attr_stores(ba).items()}
     ok = bool(c) and norm(c[0].args[1]) == "'signal-each'" and st.get("left") == "SignalRef('signal-each', bundle.source_id)" and st.get("right") == "operand" and st.get("op") == "op"
     rep.check(ok, "C02-R1", "bundle OP scalar: each-arithmetic (each in, each out, scalar on the right)", str({k: st.get(k) for k in ("op", "left", "right")}), ba.loc())
     bd = b.methods["bundle_decider"]
     c = calls_in(bd.node, "IRDecider")
-    st = {norm(n.targets[0]).split(".")[-1]: norm(n.value) for n in walk_local(bd.node) if isinstance(n, ast.Assign) and isinstance(n.targets[0], ast.Attribute)}
+    st = {k: v[-1] for k, v in attr_stores(bd).items()}
     ok = bool(c) and norm(c[0].args[1]) == "'signal-each'" and st.get("left") == "SignalRef('signal-each', bundle.source_id)" and st.get("right") == "compare_value" and st.get("test_op") == "op" \
         and st.get("copy_count_from_input") == "copy_count_from_input" and st.get("output_value") == "output_value"
     rep.check(ok, "C02-R1", "bundle filter: each-decider (each compared, each output, copy or constant per member)", str(st), bd.loc())
     bg = b.methods["bundle_gating_decider"]
     c = calls_in(bg.node, "IRDecider")
-    st = {norm(n.targets[0]).split(".")[-1]: norm(n.value) for n in walk_local(bg.node) if isinstance(n, ast.Assign) and isinstance(n.targets[0], ast.Attribute)}
+    st = {k: v[-1] for k, v in attr_stores(bg).items()}
     ok = bool(c) and norm(c[0].args[1]) == "'signal-everything'" and st.get("left") == "left" and st.get("right") == "right" and st.get("test_op") == "op" \
         and st.get("output_value") == "SignalRef('signal-everything', bundle.source_id) if copy_count_from_input else output_value"
     rep.check(ok, "C02-R1", "gating: scalar condition, output signal-everything copied from the bundle", str(st), bg.loc())
     bc = b.methods["bundle_const"]
-    ok = any(isinstance(n, ast.Assign) and norm(n) == "op.signals = signals.copy()" for n in walk_local(bc.node)) and any(call_name(x) == "BundleRef" and norm(x.args[0]) == "set(signals.keys())" for x in calls_in(bc.node))
+    ok = attr_stores(bc).get("signals") == ["signals.copy()"] and any(call_name(x) == "BundleRef" and norm(x.args[0]) == "set(signals.keys())" for x in calls_in(bc.node))
     rep.check(ok, "C02-R1", "bundle constant carries exactly the listed members", "signals copied; members = keys", bc.loc())
     for name, want in (("lower_bundle_any", "signal-anything"), ("lower_bundle_all", "signal-everything")):
         lits = [l for l, _ in _sigref_literals(el.methods[name])]
         rep.check(lits == [want], "C02-R1", f"{name} reads {want}", str(lits), el.methods[name].loc())
     sl = repo.cls("StatementLowerer").methods["_lower_inlined_bundle_condition"]
-    dus = DefUse(sl)
-    ss = [norm(v) for v in dus.value_exprs("special_signal")]
-    fn = [norm(v) for v in dus.value_exprs("func_name")]
-    ok = ss == ["'signal-everything' if func_name == 'all' else 'signal-anything'"] and fn == ["'all' if isinstance(expr.left, BundleAllExpr) else 'any'"]
-    rep.check(ok, "C02-R1", "inlined entity condition maps all/any to the same wildcards as the lowerer", f"{fn} -> {ss}", sl.loc())
+    csl = canon(sl)
+    dd = [n for n in walk_local(sl.node) if isinstance(n, ast.Dict) and any(isinstance(k, ast.Constant) and k.value == "signal" for k in n.keys)]
+    sig = csl.text(dict(zip([k.value for k in dd[0].keys], dd[0].values))["signal"]) if dd else ""
+    ok = sig == "'signal-everything' if ('all' if isinstance(expr.left, BundleAllExpr) else 'any') == 'all' else 'signal-anything'"
+    rep.check(ok, "C02-R1", "inlined entity condition maps all/any to the same wildcards as the lowerer", sig, sl.loc())
     ca = repo.func("PlanEntityEmitter._configure_arithmetic")
     g = [n for n in walk_local(ca.node) if isinstance(n, ast.If) and "signal-each" in norm(n.test)]
-    ok = bool(g) and norm(g[0].test) == "output_signal == 'signal-each' and left_operand != 'signal-each' and (right_operand != 'signal-each')"
-    rep.check(ok, "C02-R1", "an each output without an each input is replaced before emission", norm(g[0].test) if g else "guard missing", ca.loc())
+    gt = canon(ca).text(g[0].test) if g else ""
+    parts = [canon(ca).text(v) for v in g[0].test.values] if g and isinstance(g[0].test, ast.BoolOp) and isinstance(g[0].test.op, ast.And) else []
+    ok = len(parts) == 3 and "props.get('output_signal')" in parts[0] and parts[0].endswith("== 'signal-each'") and parts[1] == "props.get('left_operand') != 'signal-each'" and parts[2] == "props.get('right_operand') != 'signal-each'"
+    rep.check(ok, "C02-R1", "an each output without an each input is replaced before emission", gt or "guard missing", ca.loc())
     bs = el.methods["lower_bundle_select"]
     rets = [c for c in calls_in(bs.node, "SignalRef")]
-    ok = bool(rets) and all(norm(c.args[0]) == "expr.signal_type" and norm(c.args[1]) == "bundle_ref.source_id" for c in rets)
+    ok = bool(rets) and all(norm(c.args[0]) == "expr.signal_type" and canon(bs).text(c.args[1]) == "self.lower_expr(expr.bundle).source_id" for c in rets)
     rep.check(ok, "C02-R1", "bundle[\"t\"] reads member t from the bundle's own source", "; ".join(norm(c)[:60] for c in rets), bs.loc())
     bo = el.methods["_lower_bundle_op"]
     c = calls_in(bo.node, "bundle_arithmetic")
-    ok = bool(c) and norm(c[0].args[1]) == "bundle_ref" and norm(c[0].args[2]) == "right_ref"
+    ok = bool(c) and canon(bo).text(c[0].args[1]) == "self.lower_expr(expr.left)" and canon(bo).text(c[0].args[2]) == "self.lower_expr(expr.right)"
     rep.check(ok, "C02-R1", "bundle OP x: the bundle is the each-side, x the scalar side", norm(c[0])[:80] if c else "", bo.loc())
 
     # ---------------- R2 ---------------------------------------------------------------
@@ -77,9 +80,8 @@ def run(repo: Repo, rep: Report, tier: str) -> None:
              "exactly one of the two inputs to the non-default colour; the wire selection stored for an operand with a resolved source is a single colour from the planner's lookup")
     for name, operand in (("bundle_arithmetic", "operand"), ("bundle_decider", "compare_value"), ("bundle_gating_decider", "left")):
         m = b.methods[name]
-        pm = parents_map(m.node)
         flags = [n for n in walk_local(m.node) if isinstance(n, ast.Assign) and "needs_wire_separation" in norm(n.targets[0]) and norm(n.value) == "True"]
-        ok = bool(flags) and any(norm(t) == f"isinstance({operand}, SignalRef)" and pol for t, pol in guard_chain(m, flags[0], pm))
+        ok = bool(flags) and any(t == f"isinstance({operand}, SignalRef)" and pol for t, pol in cguards(m, flags[0]))
         rep.check(ok, "C02-R2", f"{name} flags wire separation when `{operand}` is a signal", norm(flags[0]) if flags else "flag never set", m.loc())
     ep = repo.cls("EntityPlacer")
     pa = ep.methods["_place_arithmetic"]
@@ -87,41 +89,41 @@ def run(repo: Repo, rep: Report, tier: str) -> None:
     rep.check(bool(c) and norm(kwarg(c[0], "needs_wire_separation")) == "op.needs_wire_separation", "C02-R2", "_place_arithmetic forwards the flag", norm(kwarg(c[0], "needs_wire_separation")) if c else "", pa.loc())
     pd = ep.methods["_place_single_condition_decider"]
     c = calls_in(pd.node, "create_and_add_placement")
-    dud = DefUse(pd)
-    ok = bool(c) and norm(kwarg(c[0], "needs_wire_separation")) == "needs_wire_separation" and any("debug_metadata.get('needs_wire_separation'" in norm(v) for v in dud.value_exprs("needs_wire_separation"))
+    ok = bool(c) and canon(pd).text(kwarg(c[0], "needs_wire_separation")).startswith("op.debug_metadata.get('needs_wire_separation'")
     rep.check(ok, "C02-R2", "_place_single_condition_decider forwards the flag from the node's metadata", "", pd.loc())
     from ..core import module_const as mc
     WC = tuple(mc(repo, repo.module("layout.wire_router"), "WIRE_COLORS"))
     default = WC[0]
     dl = repo.func("LayoutPlanner._determine_locked_wire_colors")
-    pmd = parents_map(dl.node)
-    locks = [n for n in walk_local(dl.node) if isinstance(n, ast.Assign) and isinstance(n.targets[0], ast.Subscript) and norm(n.targets[0].value) == "locked" and isinstance(n.value, ast.Constant)]
-    sep = [n for n in locks if any("needs_wire_separation" in norm(t) and not pol for t, pol in guard_chain(dl, n, pmd))]
+    locks = [n for n in walk_local(dl.node) if isinstance(n, ast.Assign) and isinstance(n.targets[0], ast.Subscript) and isinstance(n.value, ast.Constant) and n.value.value in WC
+             and isinstance(n.targets[0].value, ast.Name)]
     kinds = {}
-    for n in sep:
-        for t, pol in guard_chain(dl, n, pmd):
-            if pol and "entity_type ==" in norm(t):
-                kinds[norm(t).split("==")[1].strip().strip("'")] = n
+    for n in locks:
+        gs = cguards(dl, n)
+        if not any("needs_wire_separation" in t and not pol for t, pol in gs):
+            continue
+        for t, pol in gs:
+            if pol and ".entity_type ==" in t:
+                kinds[t.split("==")[1].strip().strip("'")] = n
     for kind in ("arithmetic-combinator", "decider-combinator"):
         n = kinds.get(kind)
         ok = n is not None and n.value.value != default and n.value.value in WC
         rep.check(ok, "C02-R2", f"planner locks one input of a separated {kind} to the non-default colour",
-                  f"{norm(n.targets[0])[:60]} = {n.value.value!r}; unlocked sources default to {default!r}" if n is not None else "no lock for this entity type", dl.loc(n) if n is not None else dl.loc())
+                  f"lock = {n.value.value!r}; unlocked sources default to {default!r}" if n is not None else "no lock for this entity type", dl.loc(n) if n is not None else dl.loc())
     inj = repo.func("LayoutPlanner._inject_operand_wire_color")
-    pmi = parents_map(inj.node)
+    cinj = canon(inj)
     stores = [n for n in walk_local(inj.node) if isinstance(n, ast.Assign) and isinstance(n.targets[0], ast.Subscript) and "_operand_wires" in norm(n.targets[0].slice)]
-    dui = DefUse(inj)
     n_res = 0
     for n in stores:
-        gs = [(norm(t), pol) for t, pol in guard_chain(inj, n, pmi)]
-        resolved = any("source_entity and" in g and pol for g, pol in gs)
+        gs = cguards(inj, n)
+        resolved = any("self._resolve_source_entity(" in g and pol for g, pol in gs)
         if not resolved:
             continue
         n_res += 1
-        v = n.value
-        single = isinstance(v, ast.Set) and len(v.elts) == 1 and isinstance(v.elts[0], ast.Name) and any("get_wire_color_for_edge" in norm(x) for x in dui.value_exprs(v.elts[0].id))
+        v = cinj.text(n.value)
+        single = isinstance(n.value, ast.Set) and len(n.value.elts) == 1 and "get_wire_color_for_edge(" in v
         rep.check(single, "C02-R2", "an operand with a resolved source reads exactly the one colour recorded for its edge",
-                  norm(n) if single else f"{norm(n)}: the operand may read both colours, so a scalar on the other colour is swept into `each` / the wildcard", inj.loc(n))
+                  v[:100] if single else f"{v[:100]}: the operand may read both colours, so a scalar on the other colour is swept into `each` / the wildcard", inj.loc(n))
     rep.floor("C02-R2", "wire-selection stores for resolved sources", n_res, 1)
 
     # ---------------- R3 ---------------------------------------------------------------
@@ -129,14 +131,17 @@ def run(repo: Repo, rep: Report, tier: str) -> None:
              "literal check every branch that contributes members tests them against, and records them in, the seen-map")
     bl = el.methods["lower_bundle_literal"]
     cfg = CFG(bl.node)
-    cs = [s for s in cfg.stmts() if isinstance(s, ast.Assign) and norm(s.targets[0]) == "constant_signals[signal_name]"]
-    apps = [s for s in cfg.stmts() if isinstance(s, ast.Expr) and norm(s.value) == "computed_refs.append(ref)"]
+    loop = [s for s in cfg.stmts() if isinstance(s, ast.For) and norm(s.iter) == "expr.elements"]
+    if not loop:
+        raise AnalysisError("C02-R3: element loop not found in lower_bundle_literal")
+    loop = loop[0]
+    # the store of a constant member (a dict subscript store whose value is the extracted constant) and the lowering of the same element
+    cbl = canon(bl)
+    cs = [s for s in cfg.stmts() if isinstance(s, ast.Assign) and isinstance(s.targets[0], ast.Subscript) and "extract_constant_int" in cbl.text(s.value)]
+    apps = [s for s in cfg.stmts() if isinstance(s, ast.Expr) and isinstance(s.value, ast.Call) and call_name(s.value) == "append" and "self.lower_expr(ELEM(expr.elements))" in cbl.text(s.value.args[0])]
     ok = bool(cs) and bool(apps)
     if ok:
-        # after the constant store, the computed append of the same iteration must be unreachable without passing the loop head
-        loop = [s for s in cfg.stmts() if isinstance(s, ast.For) and norm(s.iter) == "expr.elements"][0]
-        reach = cfg.reaches_avoiding(cs[0], {id(apps[0])}, lambda n: n is loop, start_inclusive=False)
-        ok = not reach
+        ok = not any(cfg.reaches_avoiding(cs[0], {id(a_)}, lambda n: n is loop, start_inclusive=False) for a_ in apps)
     rep.check(ok, "C02-R3", "a constant member is listed once (constant part only)", "`continue` after the constant store" if ok else "a constant member also reaches the computed list: it is emitted twice and summed on the wire", bl.loc(cs[0]) if cs else bl.loc())
     from .shared import bundle_literal_sibling_branches
     bundle_literal_sibling_branches(repo, rep, "C02-R3")
